@@ -270,6 +270,8 @@ def main(tier):
     check_month_leap(run, fx, rs)
     check_kernel_shifts(run, fx, rs)
     check_floor_path(run, fx, rs)
+    from ..rules import extra as _x
+    _x.check_from_epoch_nanos(run, fx)
     units.report(run, fx, "C01")
     run.assumptions += ["the constants 146097 (days per 400 years) and 719468 (computational rata die of 1970-01-01) of "
                         "the Neri-Schneider paper"]
